@@ -26,7 +26,7 @@ def shards(pid, tier, seed):
     if tier == "quick":
         return ([{"mode": "threaded", "n": 40} for _ in range(4)] + [{"mode": "threaded", "n": 12, "start_at": 2 ** 32 - 400000}]
                 + [{"mode": "convert", "lo": 1000, "hi": 100000, "stride": 9, "offset": i} for i in range(2)])
-    return ([{"mode": "threaded", "n": 250} for _ in range(12)] + [{"mode": "threaded", "n": 60, "start_at": 2 ** 32 - 3000000}]
+    return ([{"mode": "threaded", "n": 1500} for _ in range(14)] + [{"mode": "threaded", "n": 200, "start_at": 2 ** 32 - 3000000}]
             + [{"mode": "convert", "lo": 1000 + i * 24750, "hi": min(100000, 1000 + (i + 1) * 24750 - 1), "stride": 1, "offset": 0} for i in range(4)])
 
 
